@@ -710,7 +710,34 @@ func c02Special(res *eng.Result, ss *sigSet) {
 		tc{"bits-restricted/sibling-keeps-all", hdr + bitsTd + `leaf x { type bt { bit g; bit b; } } leaf y { type bt; } }`, nil, "y", func(l meta.Leafable) string { return bitSet(l.Type()) }},
 		tc{"bits-restricted/two-levels", hdr + bitsTd + `typedef bt2 { type bt { bit f; bit g; bit b; } } leaf x { type bt2 { bit g; } } }`, nil, "x", func(l meta.Leafable) string { return bitSet(l.Type()) }},
 	)
-	want := map[string]string{"enum-restricted/leaf": "six=6,two=2", "enum-restricted/sibling-keeps-all": "five=5,six=6,two=2,zero=0", "enum-restricted/two-levels": "five=5,two=2", "enum-restricted/leaf-list": "six=6",
+	typeAndDefault := func(l meta.Leafable) string {
+		return fmt.Sprint(l.Type().Format(), "/", l.HasDefault(), "/", l.DefaultValue(), "/", l.Units())
+	}
+	const twoScopes = `container north { typedef t { type int32; default "5"; units "n"; } leaf x { type t; } } container south { typedef t { type string; default "low"; units "s"; } leaf x { type t; } } `
+	const twoGroupings = `grouping g1 { typedef t { type uint8; default "1"; } leaf x { type t; } } grouping g2 { typedef t { type boolean; default "true"; } leaf x { type t; } } container a { uses g1; } container b { uses g2; } `
+	const inOut = `rpc r { input { typedef t { type int64; } leaf x { type t; } } output { typedef t { type string; } leaf x { type t; } } } notification n1 { typedef t { type boolean; } leaf x { type t; } } notification n2 { typedef t { type uint16; } leaf x { type t; } } `
+	cases = append(cases,
+		// RFC 7950 5.5: the same typedef name in scopes that do not contain each other
+		tc{"typedef/same-name-in-sibling-scopes/first", hdr + twoScopes + `}`, nil, "north/x", typeAndDefault},
+		tc{"typedef/same-name-in-sibling-scopes/second", hdr + twoScopes + `}`, nil, "south/x", typeAndDefault},
+		tc{"typedef/same-name-in-two-groupings/first", hdr + twoGroupings + `}`, nil, "a/x", typeAndDefault},
+		tc{"typedef/same-name-in-two-groupings/second", hdr + twoGroupings + `}`, nil, "b/x", typeAndDefault},
+		tc{"typedef/same-name-in-input-and-output/input", hdr + inOut + `}`, nil, "r/input/x", typeAndDefault},
+		tc{"typedef/same-name-in-input-and-output/output", hdr + inOut + `}`, nil, "r/output/x", typeAndDefault},
+		tc{"typedef/same-name-in-two-notifications/second", hdr + inOut + `}`, nil, "n2/x", typeAndDefault},
+		// the leaf a relative leafref leads to depends on where the grouping is used
+		tc{"leafref/in-grouping-other-target-per-use/first", hdr + `grouping g { leaf r { type leafref { path "../a"; } } } container u1 { leaf a { type uint8; } uses g; } container u2 { leaf a { type string; } uses g; } }`, nil, "u1/r", func(l meta.Leafable) string { return l.Type().Resolve().Format().String() }},
+		tc{"leafref/in-grouping-other-target-per-use/second", hdr + `grouping g { leaf r { type leafref { path "../a"; } } } container u1 { leaf a { type uint8; } uses g; } container u2 { leaf a { type string; } uses g; } }`, nil, "u2/r", func(l meta.Leafable) string { return l.Type().Resolve().Format().String() }},
+		// choice and case are not data nodes: ".." from a leaf in a case is the node holding the choice
+		tc{"leafref/from-a-case", hdr + `container c { leaf name { type uint16; } choice ch { case x { leaf r { type leafref { path "../name"; } } } } } }`, nil, "c/r", func(l meta.Leafable) string { return l.Type().Resolve().Format().String() }},
+		tc{"leafref/relative-path-in-typedef", hdr + `typedef rt { type leafref { path "../a"; } } container c { leaf a { type int8; } leaf r { type rt; } } }`, nil, "c/r", func(l meta.Leafable) string { return l.Type().Resolve().Format().String() }},
+		tc{"leafref/with-key-predicate", hdr + `list l { key name; leaf name { type string; } leaf v { type uint32; } } leaf sel { type string; } leaf r { type leafref { path "/l[name=current()/../sel]/v"; } } }`, nil, "r", func(l meta.Leafable) string { return l.Type().Resolve().Format().String() }},
+	)
+	want := map[string]string{"typedef/same-name-in-sibling-scopes/first": "int32/true/5/n", "typedef/same-name-in-sibling-scopes/second": "string/true/low/s",
+		"typedef/same-name-in-two-groupings/first": "uint8/true/1/", "typedef/same-name-in-two-groupings/second": "boolean/true/true/",
+		"typedef/same-name-in-input-and-output/input": "int64/false//", "typedef/same-name-in-input-and-output/output": "string/false//", "typedef/same-name-in-two-notifications/second": "uint16/false//",
+		"leafref/in-grouping-other-target-per-use/first": "uint8", "leafref/in-grouping-other-target-per-use/second": "string", "leafref/from-a-case": "uint16", "leafref/relative-path-in-typedef": "int8", "leafref/with-key-predicate": "uint32",
+		"enum-restricted/leaf": "six=6,two=2", "enum-restricted/sibling-keeps-all": "five=5,six=6,two=2,zero=0", "enum-restricted/two-levels": "five=5,two=2", "enum-restricted/leaf-list": "six=6",
 		"bits-restricted/leaf": "b@2,g@6", "bits-restricted/sibling-keeps-all": "a@0,b@2,f@5,g@6", "bits-restricted/two-levels": "g@6",
 		"leafref/relative": "uint8", "leafref/absolute": "uint8", "leafref/through-list": "int64", "leafref/to-leafref": "uint8", "leafref/in-grouping-used-twice": "uint8",
 		"identityref/two-bases": "b1,b2", "identityref/cross-module-base": "rb:local,rd", "typedef-default/explicit-leaf-wins": "ld/lu", "typedef-default/union-member-default-not-inherited": "false", "typedef/shadowing-inner-scope-wins": "int32"}
